@@ -618,8 +618,8 @@ func ruleOneSlotBuffers(c *Ctx, rule string) {
 		if !has {
 			continue
 		}
-		fact := func(f *types.Var, base ssa.Value) string { return "clear:" + f.Name() + "@" + base.Name() }
-		flow := mustFlow(fn, facts{}, func(fs facts, i ssa.Instruction) facts {
+		fact := func(f *types.Var, base ssa.Value) string { return "clear:" + f.Name() } // keyed by field: a flush helper works on its own receiver name
+		flow := mustFlowDeep(fn, facts{}, func(fs facts, i ssa.Instruction) facts {
 			switch x := i.(type) {
 			case *ssa.Send:
 				if f, base := fieldOfLoad(x.X); f != nil && buffers[f] {
@@ -1187,7 +1187,8 @@ func ruleTakeListAtomically(c *Ctx, rule string) {
 				}
 			}
 		})
-		if len(clears) == 0 || !completes {
+		_ = completes
+		if len(clears) == 0 || len(snaps) == 0 {
 			continue
 		}
 		n++
